@@ -117,7 +117,8 @@ def classify(x):
 def operands(rng):
     """Pool of plain operands covering the lattice."""
     pool = []
-    for s in (0, 0.0, 0j, 2, -3, 1.5, -0.25, 2 + 1j, 1j, 1, 3.0):
+    # (tiny non-zero scalars are not the scalar zero: the 'adding zero is allowed' exemption is exact)
+    for s in (0, 0.0, 0j, 2, -3, 1.5, -0.25, 2 + 1j, 1j, 1, 3.0, 1e-15, 0.1 + 0.2 - 0.3, -1e-300, 1e-20j):
         pool.append(s)
     for n in (2, 3, 4):
         pool.append(np.array([rng.choice([-2., -1., 0.5, 1., 2., 3.]) for _ in range(n)]))
